@@ -287,8 +287,30 @@ NAMING_CATALOGUE = [
 ]
 
 
+RUST_KEYWORDS = ["as", "break", "const", "continue", "crate", "else", "enum", "extern", "false", "fn", "for", "if", "impl", "in", "let",
+                 "loop", "match", "mod", "move", "mut", "pub", "ref", "return", "self", "static", "struct", "super", "trait", "true",
+                 "type", "unsafe", "use", "where", "while", "async", "await", "dyn", "abstract", "become", "box", "do", "final", "macro",
+                 "override", "priv", "typeof", "unsized", "virtual", "yield", "try", "gen"]
+
+
+def keyword_grammars():
+    """every Rust keyword as a non-terminal name (capitalised and as it is) and as a terminal text / member name"""
+    out = []
+    for i in range(0, len(RUST_KEYWORDS), 9):
+        kws = RUST_KEYWORDS[i:i + 9]
+        caps = [k.capitalize() for k in kws]
+        out.append("S: " + " ".join(caps) + "; " + " ".join(f'{c}: "{k}{j}";' for j, (c, k) in enumerate(zip(caps, kws))))
+        out.append("S: " + " ".join(kws) + "; " + " ".join(f'{k}: "{k}{j}x";' for j, k in enumerate(kws)))
+        out.append("S: " + " ".join(f'"{k}"' for k in kws) + ";")
+        out.append("S: " + " ".join(f'"{k}{j}y"@{k}' for j, k in enumerate(kws)) + ";")
+    return out
+
+
 def naming_vectors():
     out = []
+    for i, body in enumerate(keyword_grammars()):
+        for ty in ("", "%grammar_type 'LALR(1)'\n"):
+            out.append({"par": f'%start S\n%title "t"\n%comment "c"\n{ty}%%\n{body}\n', "id": "keyword%d%s" % (i, "lr" if ty else "ll")})
     for i, body in enumerate(NAMING_CATALOGUE):
         for ty in ("", "%grammar_type 'LALR(1)'\n"):
             out.append({"par": f'%start S\n%title "t"\n%comment "c"\n{ty}%%\n{body}\n', "id": "naming%d%s" % (i, "lr" if ty else "ll")})
@@ -347,6 +369,35 @@ def c25(prop, tier, replay):
         describe=lambda first, ev, run_ev: ({"vec": ev.get("vec"), "why": ev.get("why"), "stage": ev.get("stage")}, json.dumps(ev)[:500]))
 
 
+DECL_SHAPES = {"empty": "X: ;", "t": "X: 'x';", "tt": "X: 'x' 'y';", "nt": "X: Y; Y: 'x';", "alt": "X: 'x' | 'y';", "altempty": "X: 'x' | ;",
+               "emptyalt": "X: | 'x';", "opt": "X: [ 'x' ];", "rep": "X: { 'x' };", "grp": "X: ( 'x' );", "undefined": "", "regex": "X: /x+/;",
+               "la": "X: 'x' ?= 'y';", "states": "X: <M>'x';", "clipped": "X: 'x'^;", "member": "X: 'x'@m;", "twice": "X: 'x'; X: 'y';"}
+DECL_DIRECTIVES = {"skip": "%skip X", "skip2": "%skip X, X", "enter": "%on X %enter M", "push": "%on X %push M", "pop": "%on X %pop",
+                   "enterself": "%on X %enter INITIAL", "on2": "%on X, Z %enter M", "nttype": "%nt_type X = my::T"}
+
+
+def decl_text(v):
+    """PAR text of a Gen_Decl.tla vector"""
+    d = DECL_DIRECTIVES[v["directive"]]
+    top = d if v["place"] == "top" else ""
+    inner = d if v["place"] == "state" else ""
+    ty = "%grammar_type 'LALR(1)'\n" if v["type"] == "lr" else ""
+    body = ("S: 'a' X Z;" if v["used"] else "S: 'a' Z;") + " Z: <INITIAL, M>'z'; " + DECL_SHAPES[v["shape"]]
+    return f'%start S\n%title "t"\n%comment "c"\n{ty}{top}\n%scanner M {{\n{inner}\n}}\n%%\n{body}\n'
+
+
+def decl_vectors(prop, tier):
+    part = os.path.join(OUT, f"{prop}_{tier}.decl.ndjson")
+    g = tlc_gen("Gen_Decl", {"Shapes": set(DECL_SHAPES), "Directives": set(DECL_DIRECTIVES), "Places": {"top", "state"}, "Types": {"ll", "lr"}},
+                ["Emit"], 1, part, spec="Spec", run_prefix=f"{prop}_{tier}_decl", no_shard_consts=True)
+    out = []
+    for i, l in enumerate(open(part)):
+        v = json.loads(l)
+        out.append({"par": decl_text(v), "id": "decl-" + "-".join(str(v[k]) for k in ("shape", "directive", "place", "used", "type")), "mutations": 0})
+    os.remove(part)
+    return out, g
+
+
 def c26(prop, tier, replay):
     from p_bnf import universe, with_, R_WIDE
     import random
@@ -357,6 +408,9 @@ def c26(prop, tier, replay):
     for i in range(200 if tier == "quick" else 5000):
         n = rnd.randint(0, 40)
         extra.append({"bytes": [rnd.choice([rnd.randint(0, 255), ord(rnd.choice("%:;|'\"/(){}[]<>^@ SabA\n"))]) for _ in range(n)], "id": f"bytes{i}"})
+    if not replay:
+        dv, _ = decl_vectors(prop, tier)
+        extra += dv
     gens = [{"module": "Gen_G", "constants": with_(universe(tier), Filter="all"), "invariants": ["Emit"], "spec": "ESpec", "nshards": 16},
             {"module": "Gen_G", "constants": with_(R_WIDE, Filter="all"), "invariants": ["Emit"], "spec": "ESpec", "nshards": 16,
              "simulate": 40 if tier == "quick" else 1500, "depth": 12}] + ebnf_gens(tier, False)
@@ -366,7 +420,10 @@ def c26(prop, tier, replay):
         "catch_unwind on: every grammar of the exhaustive universe unfiltered (non-productive, unreachable, left-recursive, cyclic, "
         "conflicting, start-recursive) as LL(k) and LALR(1) with lookahead limits 1, 3, 10; the EBNF universes; every .par file of the "
         f"repository as it is and with {nmut} seeded mutations each (deleted / duplicated / swapped / truncated spans, inserted PAR "
-        "punctuation and directives); random byte strings. A panic (reported with its source location) is a violation; Err is fine. "
+        "punctuation and directives); every combination of a scanner directive naming a non-terminal (%skip, %on .. %enter/%push/%pop, "
+        "%nt_type; top level or inside %scanner) with every shape of that non-terminal's definition (Gen_Decl.tla: empty, one/two terminals, "
+        "non-terminal, alternatives, empty alternative, optional, repetition, group, undefined, regex, lookahead, scanner states, clipped, "
+        "member, two productions), used or unused, LL and LALR; random byte strings. A panic (reported with its source location) is a violation; Err is fine. "
         "non-trivial: the text got past the front end",
         level="exploration", extra_vectors=extra, exhaustive=False,
         nontrivial_tags=["accepted", "rejected_check", "rejected_analysis"],
